@@ -43,6 +43,15 @@ def alphabet(full=True):
     A.append({"op": "incr", "k": "a", "d": 5, "nr": True})
     A.append({"op": "delete", "k": "a", "nr": True})
     A.append({"op": "touch", "k": "a", "e": 0, "nr": None})
+    # expiry times the server reads as absolute unix time (more than thirty days): just ahead of the server's clock, so the clock advances pass them;
+    # and refresh commands with a time in the past (the item is gone at once)
+    A.append({"op": "set", "k": "a", "v": b"1", "e": 1_000_000_100, "nr": False})
+    A.append({"op": "add", "k": "a", "v": b"1", "e": 1_000_000_050, "nr": True})
+    A.append({"op": "touch", "k": "a", "e": 1_000_000_100, "nr": False})
+    A.append({"op": "set", "k": "a", "v": b"1", "e": 2592001, "nr": False})
+    A.append({"op": "touch", "k": "a", "e": -1, "nr": False})
+    A.append({"op": "gat", "k": "a", "e": -1})
+    A.append({"op": "gats", "k": "a", "e": -5})
     # conditional store with an expiry (then the clock passes it)
     A.append({"op": "cas", "k": "a", "v": b"t", "cas": "FRESH", "e": 100, "nr": False})
     A.append({"op": "add", "k": "a", "v": b"t", "e": 100, "nr": False})
@@ -70,7 +79,7 @@ def alphabet(full=True):
                 continue
             if c.get("k") == "b" and (c["op"] not in ("set", "get") or c.get("v") == b""):
                 continue
-            if c["op"] in ("append", "prepend", "replace", "decr", "gat", "gats", "gets_many") and not (c["op"] in ("replace",) and c.get("nr")):
+            if c["op"] in ("append", "prepend", "replace", "decr", "gat", "gats", "gets_many") and not (c["op"] in ("replace",) and c.get("nr")) and not (c.get("e", 0) < 0):
                 continue
             keep.append(c)
         A = keep
